@@ -12,7 +12,7 @@
 
 //! Restore from the archive to the filesystem.
 
-use std::collections::HashMap;
+use std::collections::{HashMap, HashSet};
 use std::fs::{File, create_dir_all};
 use std::io::{self, Write};
 use std::path::{Path, PathBuf};
@@ -99,8 +99,22 @@ pub async fn restore(
         monitor.clone(),
     );
     let mut deferrals = Vec::new();
+    // Paths restored as symlinks. Nothing is restored below them, because that would write
+    // through the link to wherever it points, possibly outside the destination. The stitched
+    // listing of an interrupted backup can hold a symlink from the newer band followed by the
+    // former contents of the directory it replaced, from the older band.
+    let mut symlink_apaths: HashSet<String> = HashSet::new();
     while let Some(entry) = stitch.next().await {
         task.set_name(format!("Restore {}", entry.apath));
+        if has_symlink_ancestor(&symlink_apaths, &entry.apath) {
+            monitor.error(Error::InvalidMetadata {
+                details: format!(
+                    "{:?} is below a path that was restored as a symlink",
+                    entry.apath()
+                ),
+            });
+            continue;
+        }
         let path = destination.join(&entry.apath[1..]);
         match entry.kind() {
             Kind::Dir => {
@@ -133,6 +147,7 @@ pub async fn restore(
             }
             Kind::Symlink => {
                 monitor.count(Counter::Symlinks, 1);
+                symlink_apaths.insert(entry.apath.to_string());
                 if let Err(err) = restore_symlink(&path, &entry) {
                     monitor.error(err);
                     continue;
@@ -151,6 +166,18 @@ pub async fn restore(
     }
     apply_deferrals(&deferrals, monitor.clone())?;
     Ok(())
+}
+
+/// True if a proper ancestor directory of `apath` is in `symlink_apaths`.
+fn has_symlink_ancestor(symlink_apaths: &HashSet<String>, apath: &Apath) -> bool {
+    let s: &str = apath;
+    let bytes = s.as_bytes();
+    for i in 1..bytes.len() {
+        if bytes[i] == b'/' && symlink_apaths.contains(&s[..i]) {
+            return true;
+        }
+    }
+    false
 }
 
 fn restore_dir(apath: &Apath, restore_path: &Path, options: &RestoreOptions) -> io::Result<()> {
